@@ -13,12 +13,13 @@ structure BState where
   delivered : List (Nat × Nat) := []   -- (client, element) handed to a client
   removed : List Nat := []       -- elements explicitly removed by non-blocking commands (LPOP, LTRIM, DEL …)
   pushed : List Nat := []        -- every element ever pushed
+  nextId : Nat := 0              -- `signals`: the id the next registering client gets (its age)
   deriving Repr
 
 inductive BStep where
   | push (xs : List Nat)         -- RPUSH: append, then wake up to |xs| queue heads
-  | register (c : Nat)           -- a client whose first try found nothing joins the queue
-  | retry (c : Nat)              -- a woken client pops the head if there is one, else registers again
+  | register                     -- a client whose first try found nothing joins the queue with a fresh id
+  | retry (c : Nat)              -- a woken client pops the head if there is one, else takes its place again
   | steal                        -- a non-blocking LPOP by someone else
   | leave (c : Nat)              -- timeout / unblock / disconnect: the client gives up
   deriving Repr
@@ -26,14 +27,19 @@ inductive BStep where
 def wake (n : Nat) (s : BState) : BState :=
   { s with queue := s.queue.drop n, woken := s.woken ++ s.queue.take n }
 
+/-- `waitTable.reenterWait`: before the first queued client that is younger (has a larger id) -/
+def insertAge (c : Nat) : List Nat → List Nat
+  | [] => [c]
+  | x :: r => if c < x then c :: x :: r else x :: insertAge c r
+
 def bstep (s : BState) : BStep → BState
   | .push xs => wake xs.length { s with list := s.list ++ xs, pushed := s.pushed ++ xs }
-  | .register c => if c ∈ s.queue ∨ c ∈ s.woken then s else { s with queue := s.queue ++ [c] }
+  | .register => { s with queue := s.queue ++ [s.nextId], nextId := s.nextId + 1 }
   | .retry c =>
     if c ∈ s.woken then
       match s.list with
       | x :: r => { s with list := r, woken := s.woken.erase c, delivered := s.delivered ++ [(c, x)] }
-      | [] => { s with woken := s.woken.erase c, queue := s.queue ++ [c] }   -- repaired behaviour: register anew
+      | [] => { s with woken := s.woken.erase c, queue := insertAge c s.queue }   -- repaired behaviour: back to its place
     else s
   | .steal =>
     match s.list with
